@@ -31,7 +31,8 @@ TOL = 1e-10
 
 
 def BOUNDS(tier):
-    return {"amplitudes": [0.0, 0.15], "families": len(SOLID_FIELDS), "materials": ["NeoHooke", "NeoHookeCompressible", "tt-mooney", "OgdenRoxburgh-softened", "tt-visco"]}
+    return {"amplitudes": [0.0, 0.15], "families": len(SOLID_FIELDS), "materials": ["NeoHooke", "NeoHookeCompressible", "tt-mooney", "OgdenRoxburgh-softened", "tt-visco"],
+            "mass_call_histories": "depth <= 3 over {mass(), mass(density=0.9), mass(density=4), mass() + in-place edit}"}
 
 
 MATS = ["NeoHooke", "NeoHookeCompressible", "tt-mooney", "OgdenRoxburgh-softened", "tt-visco", "LELS"]
